@@ -113,7 +113,7 @@ class KeywordSearches:
                 str(yaml_path))
         match_key = parameters[0]
 
-        if match_key[0] == "&":
+        if match_key.startswith("&"):
             matches = KeywordSearches._has_anchored_child(
                 data, invert, parameters, yaml_path, **kwargs)
         else:
